@@ -69,6 +69,13 @@ def render_fun(fn):
                 lines.append("        %s," % p)
             lines.append("    )")
             item_lines.append(len(lines))      # the line where the call ENDS (what the analysis hashes up to)
+        elif it.get("wrap"):
+            # the dds call is the first argument of a (non-accepted) library call that goes on for several lines:
+            # the lines after the end of the dds call are not part of its call-site context
+            lines.append("    r%d = first(%s," % (i, e))
+            item_lines.append(len(lines))      # the dds call ends on this line
+            for j, wl in enumerate(it["wrap"]):
+                lines.append("        %r%s" % (wl, ")" if j == len(it["wrap"]) - 1 else ","))
         else:
             lines.append("    r%d = %s" % (i, e))
             item_lines.append(len(lines))
@@ -92,6 +99,8 @@ def ext_names(fn):
         names.add("hof")
     if fn.get("fails"):
         names.add("boom")
+    if any(it.get("wrap") and not it.get("multiline") for it in fn["items"]):
+        names.add("first")
     for it in fn["items"]:
         if it["k"] in ("keep", "call"):
             for a in list(it.get("args", [])) + [a for (_, a) in it.get("kwargs", [])]:
@@ -102,7 +111,7 @@ def ext_names(fn):
 
 def render_world(world, extmod=None, order=None):
     """module source; `extmod`: name of the world's non-accepted companion module"""
-    out = ["import dds", "from %s import log, term, rt, hof, boom" % RT_MODULE]
+    out = ["import dds", "from %s import log, term, rt, hof, boom, first" % RT_MODULE]
     if extmod:
         out.append("import %s as extmod" % extmod)
     out.append("")
@@ -263,6 +272,8 @@ def _gen_world(rng, nfun, allow):
             else:
                 args, kwargs, _ = gen_call_args(rng, specs[j], len(items), params)
                 items.append({"k": "keep", "path": newpath(), "f": "f%d" % j, "args": args, "kwargs": kwargs})
+                if rng.random() < 0.2:
+                    items[-1]["wrap"] = ["w0", "w1"]
         reads = [v for (v, _) in vars_ if rng.random() < 0.5]
         funs.append({"name": "f%d" % i, "params": params, "store_path": ("/df%d" % i) if datafn[i] else None,
                      "tag": "f%d#0" % i, "reads": reads, "items": items, "fails": None, "uses_ext": rng.random() < 0.2,
@@ -372,7 +383,7 @@ def gen_chain_world(rng):
     return w if sites_ok(w) else gen_chain_world(rng)
 
 
-def gen_load_world(rng, placement=None, producer=None, order=None, reuse=None):
+def gen_load_world(rng, placement=None, producer=None, order=None, reuse=None, nloads=1):
     """directed stratum for C09: one producer of /prod, one reader that loads it.
     placement: where the load sits (root | helper | kept | datafn); producer: datafn | keep;
     order: before | after | earlier | never (relative to the reader, in program order)"""
@@ -407,6 +418,17 @@ def gen_load_world(rng, placement=None, producer=None, order=None, reuse=None):
     else:
         reader = {"name": "fr", "params": [], "store_path": "/reader", "tag": "fr#0", "reads": [], "items": [load_item], "fails": None, "uses_ext": False}
         reader_item = {"k": "call", "f": "fr"}
+    if nloads > 1:
+        # the same path is loaded several times in the reader's body (one dependency, however often it is read)
+        extra = [dict(load_item) for _ in range(nloads - 1)]
+        if reader is not None:
+            reader["items"] = reader["items"][:1] + extra + reader["items"][1:]
+            for it in reader["items"]:
+                if it["k"] == "keep":
+                    for a in it.get("args", []):
+                        if "r" in a:
+                            a["r"] = [0]
+    reader_seq = [reader_item] + ([dict(load_item) for _ in range(nloads - 1)] if reader is None else [])
     if rng.random() < 0.5:
         root_items.append({"k": "call", "f": "fn"})
     # the producing function may already have appeared in the evaluation (called, or kept at another path)
@@ -417,17 +439,17 @@ def gen_load_world(rng, placement=None, producer=None, order=None, reuse=None):
         elif reuse == "kept_before":
             root_items.append({"k": "keep", "path": "/other", "f": "fp", "args": [], "kwargs": []})
     if order == "before":
-        root_items += [prod_item, reader_item]
+        root_items += [prod_item] + reader_seq
     elif order == "after":
-        root_items += [reader_item, prod_item]
+        root_items += reader_seq + [prod_item]
     else:
-        root_items += [reader_item]
+        root_items += reader_seq
     if rng.random() < 0.5:
         root_items.append({"k": "call", "f": "fn"})
     f0 = {"name": "f0", "params": [], "store_path": None, "tag": "f0#0", "reads": [], "items": root_items, "fails": None, "uses_ext": False}
     funs = [f0] + ([reader] if reader else []) + ([fq] if fq else []) + [fp, noise]
     w = {"vars": vars_, "funs": funs, "ext_version": 0, "extra": []}
-    meta = {"placement": placement, "producer": producer, "order": order, "reuse": reuse}
+    meta = {"placement": placement, "producer": producer, "order": order, "reuse": reuse, "nloads": nloads}
     return w, meta
 
 
@@ -483,7 +505,7 @@ def same_hash_class(a, b):
     return c05.canon(a, rules) == c05.canon(b, rules)
 
 
-EDIT_KINDS = ["body", "var", "const_arg", "unrelated_fun", "unrelated_var", "reorder", "ext", "revert", "delete_call", "whitespace", "rt_arg", "multiline"]
+EDIT_KINDS = ["body", "var", "const_arg", "unrelated_fun", "unrelated_var", "reorder", "ext", "revert", "delete_call", "whitespace", "rt_arg", "multiline", "wrap_lit"]
 
 
 def bump_tag(tag):
@@ -545,6 +567,15 @@ def apply_edit(rng, world, kind):
         f, it = rng.choice(sites)
         it["multiline"] = not it.get("multiline")
         return w, {"kind": "body", "fun": f["name"], "layout_of": it["path"]}
+    if kind == "wrap_lit":
+        # an edit on a line of the caller strictly after the end of a kept call (a later argument of the library
+        # call wrapped around it): the caller's body changes, the call-site context of the kept call does not
+        sites = [(f, it) for f in w["funs"] for it in f["items"] if it.get("wrap") and not it.get("multiline")]
+        if not sites:
+            return None
+        f, it = rng.choice(sites)
+        it["wrap"] = list(it["wrap"][:-1]) + [it["wrap"][-1] + "x"]
+        return w, {"kind": "body", "fun": f["name"], "after_call_of": it["f"], "after_path": it["path"]}
     if kind == "whitespace":
         f = rng.choice(w["funs"])
         f["ws"] = (not f["ws"]) if f.get("ws") is not None else True
